@@ -37,6 +37,7 @@ func runC26(c *Ctx) {
 	c.rule(P, "entry-size", "the stop test's estimate (Len + K + pad4(name)) covers the bytes the loop appends per entry plus the list trailer, minus the status word; sizes from the reply trace", 2)
 	c.rule(P, "cookie", "entry cookie = index+1; resume skips indices < cookie; eof = !stopped-for-size", 6)
 	runC26OrderPreserved(c)
+	runC26EntrySkip(c, P)
 	ent, err := p.entrySet()
 	if err != nil {
 		c.undecided(P, "fit", "entries", "", err.Error())
@@ -378,6 +379,33 @@ func runC27(c *Ctx) {
 	}
 	if n == 0 {
 		c.undecided(P, "loopback", "sink=none", p.pos(hc.Pos()), "no registry mutation reachable from handleCall")
+	}
+	// peer-arg: a nil address passes the loopback test as "in-process caller"; every call of handleCall in the
+	// package must therefore hand it the address of the connection the bytes came from
+	c.rule(P, "peer-arg", "every call of handleCall passes the peer address of the connection (RemoteAddr / the address a datagram was read from), never nil or another value", 1)
+	for i, cs := range p.callers[hc] {
+		key := fmt.Sprintf("call=%s:handleCall#%d", fnKey(cs.Caller), i+1)
+		args := cs.Instr.Common().Args
+		if len(args) < 3 {
+			c.undecided(P, "peer-arg", key, p.instrPos(cs.Instr), "unexpected arity")
+			continue
+		}
+		why := ""
+		os := fl.Origins(args[len(args)-1])
+		if len(os) == 0 {
+			why = "no origin"
+		}
+		for _, o := range os {
+			switch {
+			case o.Kind == "call" && strings.Contains(o.Desc, "RemoteAddr"):
+			case o.Kind == "call" && strings.Contains(o.Desc, "ReadFrom"):
+			case o.Kind == "outparam" && strings.Contains(o.Desc, "ReadFrom"):
+			default:
+				why = o.Desc
+			}
+		}
+		c.verdictIf(why == "", P, "peer-arg", key, p.instrPos(cs.Instr), "peer address of the connection",
+			"handleCall is entered with a peer address that is not the connection's ("+why+"): a nil address counts as an in-process caller, so SET/UNSET embedded in such a call change the registry for a remote client")
 	}
 	// dispatch: arms by (version==2 edge, procedure const)
 	type arm struct {
